@@ -87,3 +87,20 @@ def get_symbols(text):
 
 def grammar_text():
     return open(os.path.join(SRC, 'cnl2asp', 'grammar.lark')).read()
+
+
+# ---- parallel compilation (fork: every worker imports nothing new, each keeps its own Lark memo)
+def _compile_job(args):
+    text, auto_link, with_functions = args
+    return compile_text(text, auto_link, with_functions)
+
+
+def compile_many(texts, auto_link=True, with_functions=False, workers=14):
+    import multiprocessing as mp
+    if len(texts) < 24:
+        return [compile_text(t, auto_link, with_functions) for t in texts]
+    # warm the parent's cache so that forked workers inherit a built parser
+    compile_text('A warmupconcept is identified by an id.')
+    ctx = mp.get_context('fork')
+    with ctx.Pool(workers) as pool:
+        return pool.map(_compile_job, [(t, auto_link, with_functions) for t in texts], chunksize=8)
